@@ -57,6 +57,39 @@ def min_size_gap(a, b):
   return False
 
 
+def enum_extends_number(a, b):
+  """True if somewhere an Enum in `a` stands where `b` has an Int/Float (Enum may extend a number spec)."""
+  ca, cb = S.strip(a)[0], S.strip(b)[0]
+  if ca[0] == 'enum' and cb[0] in ('int', 'float'):
+    return True
+  if ca[0] in ('list', 'vtuple') and cb[0] in ('list', 'vtuple'):
+    return enum_extends_number(ca[1], cb[1])
+  if ca[0] == 'vtuple' and cb[0] == 'tuple':
+    return any(enum_extends_number(ca[1], y) for y in cb[1])
+  if ca[0] == 'tuple' and cb[0] == 'vtuple':
+    return any(enum_extends_number(x, cb[1]) for x in ca[1])
+  if ca[0] == 'ddict' and cb[0] == 'ddict':
+    return enum_extends_number(ca[2], cb[2])
+  if ca[0] == 'tuple' and cb[0] == 'tuple' and len(ca[1]) == len(cb[1]):
+    return any(enum_extends_number(x, y) for x, y in zip(ca[1], cb[1]))
+  if ca[0] == 'dict' and cb[0] == 'dict':
+    db = dict(cb[1])
+    return any(k in db and enum_extends_number(e, db[k]) for k, e in ca[1])
+  if ca[0] == 'dict' and cb[0] == 'ddict':
+    return any(enum_extends_number(e, cb[2]) for _, e in ca[1])
+  return False
+
+
+def normal_form_accepted(first_d, second_d, tok):
+  """The value as the second spec stores it (defaults filled in, typed containers re-specified) is accepted by the first."""
+  try:
+    w = S.mk(second_d).apply(S.val(tok))
+    S.mk(first_d).apply(w)
+    return True
+  except REJ:
+    return False
+
+
 def dict_keys(core):
   if core[0] == 'dict':
     return {k for k, _ in core[1]}, None
@@ -146,6 +179,14 @@ def pair_item(rec, i):
       rec.stat('compatible')
       bad = [P[k] for k in range(len(P)) if bbits[k] and not abits[k] and P[k] != 'MISSING']
       if bad:
+        # the law is about the values the second spec *yields*: a value it only accepts by completing it (a default filled
+        # in, a typed list re-specified) counts in its stored form
+        n0 = len(bad)
+        bad = [t for t in bad if not normal_form_accepted(a_d, b_d, t)]
+        rec.evals += n0
+        if n0 != len(bad):
+          rec.stat('L3-accepted-in-normal-form')
+      if bad:
         cause = ('first-spec-is-frozen' if has_frozen(a_d) else
                  'list-min_size-ignored' if min_size_gap(a_d, b_d) else f'{kind2(a_d)}~{kind2(b_d)}')
         rec.viol(f'L3-compatible-but-narrower/{cause}',
@@ -193,17 +234,31 @@ def pair_item(rec, i):
       v = S.val(t)
       if dictlike and isinstance(v, dict) and base_accepts_projection(v):
         continue        # only the fields they share are compared
+      # the value as the extended spec stores it (defaults filled in, typed containers re-specified)
+      try:
+        w = r[1]
+        if dictlike and isinstance(w, dict):
+          if base_accepts_projection(w):
+            rec.stat('L4-accepted-in-normal-form')
+            continue
+        else:
+          S.mk(b_d).apply(w)
+          rec.stat('L4-accepted-in-normal-form')
+          continue
+      except REJ:
+        pass
       bad = t
       break
     if bad is not None:
-      cause = 'frozen-value-not-revalidated' if has_frozen(a_d) else f'{kind2(a_d)}~{kind2(b_d)}'
+      cause = ('frozen-value-not-revalidated' if has_frozen(a_d) else
+               'enum-extends-number' if enum_extends_number(a_d, b_d) else f'{kind2(a_d)}~{kind2(b_d)}')
       rec.viol(f'L4-extended-accepts-more/{cause}',
                f'{a_d!r}.extend({b_d!r}) succeeded giving {c2!r}, which accepts {bad!r} that the base rejects',
                dict(kind='pair', a=a_d, b=b_d, value=bad))
       continue
     try:
       if not adds_keys and not S.mk(b_d).is_compatible(c2):
-        cause = ('enum-extends-number' if ca[0] == 'enum' and cb[0] in ('int', 'float') else
+        cause = ('enum-extends-number' if enum_extends_number(a_d, b_d) else
                  'frozen' if has_frozen(a_d) or has_frozen(b_d) else f'{kind2(a_d)}~{kind2(b_d)}')
         rec.viol(f'L4-base-not-compatible-with-extension/{cause}',
                  f'{a_d!r}.extend({b_d!r}) = {c2!r} but base.is_compatible(extended) is False', dict(kind='pair', a=a_d, b=b_d))
